@@ -8,6 +8,8 @@ From BU Require Import Lib.Bytes Lib.BytesFacts Lib.PySem Gen.Tables Gen.Src Mod
 Import ListNotations.
 Open Scope list_scope.
 Open Scope Z_scope.
+(* a rewritten source that translates but sends a tactic into a long search is reported as a broken proof in bounded time *)
+Set Default Timeout 900.
 
 Lemma bytes1_eq x : py_bytes1 x = byte1 x.
 Proof. reflexivity. Qed.
